@@ -3,8 +3,8 @@ PROPERTY = "C05"
 META = {
     "category": "proof",
     "technique": "contract-based deductive verification: two-state contracts on add_callbacks/Callback operations over the abstract set Callback.active, set-algebra stack lemma, ghost flags in get_async; z3",
-    "text": "Proof for every history (induction on its length: each operation's two-state contract is the induction step) that leaving a context removes exactly what that context activated; in get_async: finish callbacks on both exits of the try with the right failure flag, pretask only when a key moves to running, posttask only after finish_task. local_callbacks (generator context manager) and the exact pre/post pairing per key are bounded natively.",
-    "note": "Trusted: VC generator, z3; normalize_callback modelled as `object -> its 5-tuple`; local_callbacks/unpack_callbacks assumed (native bounded runs); user callbacks assumed not to touch scheduler state or Callback.active.",
+    "text": "Proof for every history (induction on its length: each operation's two-state contract is the induction step) that leaving a context removes exactly what that context activated; in get_async: finish callbacks on both exits of the try with the right failure flag, pretask only when a key moves to running, posttask only after finish_task. local_callbacks (the @contextmanager generator every scheduler call runs in) is proved to leave Callback.active as it found it on normal and on exceptional exit and to hide the global callbacks from nested schedulers (`yield` = call of the assumed with-body contract). The exact pre/post pairing per key is bounded natively.",
+    "note": "Trusted: VC generator, z3; normalize_callback modelled as `object -> its 5-tuple`; unpack_callbacks assumed (native bounded runs); ASSUMED contract of the body of `with local_callbacks(...)` (it restores Callback.active, also when it raises: the stack property + induction on nesting depth); user callbacks assumed not to touch scheduler state or Callback.active.",
     "design_ref": "DESIGN.md §5.2",
 }
 MODULES = ["contracts.callbacks", "contracts.lemmas", "contracts.local"]
@@ -12,9 +12,9 @@ ONLY = {"contracts.local": ["get_async", "get_async.fire_tasks"], "contracts.lem
 LEVEL = "proof"
 DEEP_FALLBACK = True
 EXPLANATION = "Two-state contracts on every operation that touches Callback.active + the stack lemma; callback dispatch inside get_async through ghost flags."
-TRUSTED = ["VC generator /verif/vf", "z3 5.1 / z3 4.8.12", "ASSUMED: local_callbacks swaps the global set out and back (bounded natively)", "ASSUMED: user callbacks do not modify Callback.active or scheduler state"]
+TRUSTED = ["VC generator /verif/vf", "z3 5.1 / z3 4.8.12", "ASSUMED: the body of `with local_callbacks()` restores Callback.active (stack property; induction on nesting)", "ASSUMED: user callbacks do not modify Callback.active or scheduler state"]
 ASSUMPTIONS = ["callback objects are hashable and compared by identity of their 5-tuple", "re-entering the same Callback object while it is already entered overwrites its _cm (not a nesting of contexts; excluded)"]
-NATIVE_COVERS = {q: ["add_callbacks.__exit__"] for q in ("add_callbacks.__init__", "add_callbacks.__exit__", "Callback.__enter__", "Callback.__exit__", "Callback.register", "Callback.unregister")}
+NATIVE_COVERS = {q: ["add_callbacks.__exit__"] for q in ("local_callbacks", "add_callbacks.__init__", "add_callbacks.__exit__", "Callback.__enter__", "Callback.__exit__", "Callback.register", "Callback.unregister")}
 NATIVE_COVERS.update({q: ["get_async"] for q in ("get_async", "get_async.fire_tasks")})
 
 
@@ -31,4 +31,4 @@ def replay_native(native):
 
 
 # thorough tier: deliberate edits that must turn an obligation red (applied to a scratch copy, never to /repo)
-MUTATIONS = [('contracts.callbacks', 'add_callbacks.__exit__', 'dask/callbacks.py', '            Callback.active.discard(c)', '            Callback.active.add(c)')]
+MUTATIONS = [('contracts.callbacks', 'local_callbacks', 'dask/callbacks.py', '    finally:\n        if global_callbacks:\n            Callback.active = callbacks', '    finally:\n        if not global_callbacks:\n            Callback.active = set()'), ('contracts.callbacks', 'add_callbacks.__exit__', 'dask/callbacks.py', '            Callback.active.discard(c)', '            Callback.active.add(c)')]
